@@ -220,7 +220,6 @@ Inductive leaf :=
 | LJoin                              (* lambda _: txaio.as_future(self.onJoin, self._session_details) *)
 | LLeaveK (raised : bool)            (* continuation of as_future(self.onLeave): fire 'leave' | _swallow_error *)
 | LLeaveDisconnect                   (* onLeave: disconnect(_): if self._transport: self.disconnect() *)
-| LDiscK (raised : bool)             (* continuation of as_future(self.onDisconnect) *)
 | LCancelSend (id : N)               (* call(): canceller(d) -> send CANCEL *)
 | LYield (rq : N).                   (* INVOCATION: success(res) *)
 
@@ -228,7 +227,8 @@ Inductive thunk :=
 | TLeaf (l : leaf)
 | TConnect                           (* onOpen: lambda _: txaio.as_future(self.onConnect) *)
 | TWelcomeK (o : welcome_beh) (sidv : N)
-| TChallengeK (o : chal_beh).
+| TChallengeK (o : chal_beh)
+| TDiscK (raised : bool).            (* onClose: continuation of as_future(self.onDisconnect): the final sweep *)
 
 Record sess := {
   opened : bool;                 (* ghost: onOpen happened *)
@@ -522,7 +522,6 @@ Definition run_leaf (fl : flavour) (cfg : ucfg) (s : sess) (l : leaf) : sess * l
   | LLeaveDisconnect =>
       (* protocol.py onLeave: disconnect(_): if self._transport: self.disconnect() -> self._transport.close() *)
       if transport s then (set_conn s (opened s) (transport s) false, [TransportClose]) else (s, [])
-  | LDiscK raised => (s, if raised then [UserError] else [])
   | LCancelSend id =>
       (* call(): canceller(d): self._transport.send(message.Cancel(request_id)) *)
       if transport s then
@@ -645,6 +644,11 @@ Definition run_thunk (fl : flavour) (cfg : ucfg) (s : sess) (t : thunk) : sess *
           match fl with Tx => (s, []) | Aio => challenge_failed fl cfg s end
       | ChRaise => challenge_failed fl cfg s
       end
+  | TDiscK raised =>
+      (* onClose success(arg) / _error(e): self._errback_outstanding_requests(TransportLost()) whatever the user's
+         onLeave / onDisconnect did (a0cad4f0); then fire 'disconnect' / _swallow_error *)
+      let '(s1, o1) := errback_all fl cfg s ETransportLost in
+      (s1, o1 ++ (if raised then [UserError] else []))
   end.
 
 Definition defer (fl : flavour) (cfg : ucfg) (s : sess) (t : thunk) : sess * list out :=
@@ -841,7 +845,7 @@ Definition step (fl : flavour) (cfg : ucfg) (s : sess) (o : op) : sess * list ou
             (set_sid s2 None, o1 ++ o2)
           else (s0, []) in
         let '(s4, o4, raised) := do_onDisconnect fl cfg s3 in
-        let '(s5, o5) := defer_leaf fl cfg s4 (LDiscK raised) in
+        let '(s5, o5) := defer fl cfg s4 (TDiscK raised) in
         (s5, o3 ++ o4 ++ o5)
   | OTurn =>
       match fl with
